@@ -79,6 +79,17 @@ def general_case(rng):
     else:
         qd = mpsgen.rand_qd(rng, 2); H = evolib.hermitian_mpo(rng, L, qd, exact_vals=False)
     psi = rnd_like(rng, mpsgen.rand_mps(rng, L=L, qd=qd, maxD=int(rng.integers(1, 5))), rng.random() < 0.7)
+    if rng.random() < 0.2:
+        # positive spectrum + early Lanczos termination: H = (diagonal Ising) + c * 1 and a product basis state; a spurious zero
+        # Ritz value (zero padding of the tridiagonal matrix after an early return, seeded change C10-g) is then BELOW the spectrum
+        c = float(rng.choice([3.0, 5.0]))
+        H = ptn.ising_mpo(L, float(rng.choice([1, -0.5])), float(rng.choice([0.5, -1])), float(rng.choice([0.0, 0.0, 0.3]))) \
+            + ptn.MPO.identity([0, 0], L, scale=c ** (1.0 / L))
+        qd = H.qd
+        psi = ptn.MPS(qd, [[0]] * (L + 1), fill=0.0)
+        for i in range(L):
+            A = np.zeros((2, 1, 1), dtype=complex); A[int(rng.integers(0, 2)), 0, 0] = 1.0
+            psi.A[i] = A
     v0 = dense_mps(psi); n0 = np.linalg.norm(v0)
     if n0 < 1e-6:
         return None
